@@ -3,6 +3,8 @@ from vlib import common as C
 from vlib.diff import Case, differential
 
 LEVEL = "proof"
+# C functions this check's models mirror (source-text fingerprints are recorded in the evidence, see translate/funchash.py)
+MODELLED_FUNCS = {'src/fs/iwexfile.c': ['_exfile_write', '_exfile_read', '_exfile_copy', '_exfile_ensure_size_lw', '_exfile_truncate_lw', '_exfile_initmmap_slot_lw', '_exfile_add_mmap', '_exfile_remove_mmap', 'iw_exfile_szpolicy_fibo', 'iw_exfile_szpolicy_mul']}
 MANIFEST = dict(
     level="proof",
     text=("Lean 4 theorems over an executable model of iwexfile.c (request splitting between mapped windows and the file, "
